@@ -26,6 +26,7 @@ structure S where
   mem : Mem := {}
   dump : List Task := []          -- the implementation's last full dump
   pending : Option Pending := none
+  saved : Option (List Task) := none     -- the model's contents when `sav` was taken (a `lod` may come later)
   inflight : Option (Op × Time) := none   -- crash family: the operation in flight when the process was killed
   -- statistics
   ops : Nat := 0
@@ -161,7 +162,7 @@ def stepLine (s : S) (req resp : List String) : S × List String :=
         ({ s with model := { tasks := ts }, dump := ts, pending := none,
                   nontrivial := s.nontrivial || ts.any (·.state != .scheduled) }, bad ++ dup)
     | _ => (s, ["DIFF parse bad adopt"])
-  | ["sav"] => (s, [])
+  | ["sav"] => ({ s with saved := some s.model.tasks }, [])
   | "crash" :: rest =>
     -- the process was killed; `rest` is the request that had not been acknowledged ("-" = none)
     match rest with
@@ -209,7 +210,7 @@ def stepLine (s : S) (req resp : List String) : S × List String :=
       match n.toNat?.bind (fun n => decTasks n rest) with
       | none => (s, ["DIFF parse bad lod"])
       | some (ts, _) =>
-        let d := if ts == s.model.tasks then [] else ["DIFF snapshot saved tasks differ from the model's"]
+        let d := if ts == s.saved.getD s.model.tasks then [] else ["DIFF snapshot saved tasks differ from the model's"]
         let (m', o) := Mem.load ts {}
         let d2 := if o == .ok then [] else ["DIFF snapshot model refuses a snapshot the implementation loaded"]
         ({ s with mem := m', model := { tasks := ts }, dump := ts, pending := none }, d ++ d2)
